@@ -100,6 +100,8 @@ type dRun struct {
 	firstCloseInv int  // tick of the first Close call by anyone
 	nilAlerter    bool // NewWriter was given a nil alerter: drops are not reported to anybody
 	consumerGone  bool // a user callback ended the consumer goroutine (runtime.Goexit, as t.FailNow does)
+	level         zerolog.Level
+	hasLevel      bool
 	nestedClose   bool // closing the wrapped writer closes the neighbour diode.Writer too
 	nbClose       func()
 	fatalMsg      *dMsg
@@ -118,6 +120,14 @@ func (r *dRun) on(p string) bool { return r.prop == p }
 func (r *dRun) t() int { r.tick++; return r.tick }
 
 type dTap struct{ r *dRun }
+
+// WriteLevel makes the tap a zerolog.LevelWriter: whatever level-aware entry point the
+// diode.Writer may have is the one a Logger would pick up.
+func (t *dTap) WriteLevel(l zerolog.Level, p []byte) (int, error) {
+	t.r.level, t.r.hasLevel = l, true
+	defer func() { t.r.hasLevel = false }()
+	return t.Write(p)
+}
 
 func (t *dTap) Write(p []byte) (int, error) {
 	r := t.r
@@ -140,7 +150,13 @@ func (t *dTap) Write(p []byte) (int, error) {
 		r.maxOut = o
 	}
 	zsim.Log("Write(%s) invoked", m.id)
-	n, err := r.dw.Write(p)
+	var n int
+	var err error
+	if lw, ok := interface{}(r.dw).(zerolog.LevelWriter); ok && r.hasLevel {
+		n, err = lw.WriteLevel(r.level, p)
+	} else {
+		n, err = r.dw.Write(p)
+	}
 	if zsim.Dying() {
 		return n, err
 	}
@@ -333,6 +349,12 @@ type dFailWriter struct{}
 
 func (dFailWriter) Write(p []byte) (int, error) { return 0, errors.New("first destination refuses") }
 
+// dFailCloser accepts writes and fails to close.
+type dFailCloser struct{}
+
+func (dFailCloser) Write(p []byte) (int, error) { return len(p), nil }
+func (dFailCloser) Close() error                { return errors.New("sibling cannot be closed") }
+
 type collisionCounter struct{ r *dRun }
 
 func (c collisionCounter) Write(p []byte) (int, error) {
@@ -381,7 +403,9 @@ func (r *dRun) producer(p int, lg zerolog.Logger, fatal bool) func() {
 			pad := r.pad()
 			if r.viaLogger {
 				r.pending[zsim.CurID()] = m
-				lg.Log().Str("m", m.id).Str("pad", strings.Repeat("x", pad)).Msg("")
+				// every level a logger can carry (WithLevel neither exits nor panics)
+				lv := []zerolog.Level{zerolog.NoLevel, zerolog.InfoLevel, zerolog.ErrorLevel, zerolog.PanicLevel, zerolog.FatalLevel, zerolog.DebugLevel}[(p+k)%6]
+				lg.WithLevel(lv).Str("m", m.id).Str("pad", strings.Repeat("x", pad)).Msg("")
 			} else {
 				r.directWrite(m, pad)
 			}
@@ -422,6 +446,11 @@ func (r *dRun) producer(p int, lg zerolog.Logger, fatal bool) func() {
 				other := zerolog.New(io.Discard)
 				zerolog.ErrorHandler = func(err error) { other.Info().Err(err).Msg("write failed") }
 				flg = zerolog.New(zerolog.MultiLevelWriter(dFailWriter{}, r.tap))
+			case 4:
+				// the diode first, then a sibling whose Close fails: Fatal closes the writers in
+				// the order they were given, so the diode is drained before anything can go wrong
+				zsim.Probe("fatal_with_failing_sibling_close")
+				flg = zerolog.New(zerolog.MultiLevelWriter(r.tap, dFailCloser{}))
 			}
 			flg.Fatal().Str("m", m.id).Msg("fatal")
 			zsim.Fail("harness", "Fatal().Msg returned")
@@ -526,7 +555,7 @@ func (r *dRun) config() {
 	r.stallFor = []time.Duration{50 * time.Millisecond, time.Second}[c.Intn(2)]
 	r.gap = c.Weighted(5, 3, 2)
 	r.fatalWait = c.Weighted(1, 2) == 1
-	r.fatalFilt = c.Weighted(4, 1, 1, 1)
+	r.fatalFilt = c.Weighted(4, 1, 1, 1, 1)
 	r.skipIdle = r.prop != "C12" && c.Chance(1, 2)
 	if r.scenario == scFatal {
 		r.viaLogger = true
